@@ -30,10 +30,12 @@ TIMEOUT = {"quick": 900, "thorough": 5400}
 def plan(tier, seed):
     if tier == "quick":
         return [{"n_cases": 300, "mode": "A", "hashseed": i % 3} for i in range(8)] + \
-               [{"n_cases": 6, "mode": "A", "params": {"huge": True}}]
+               [{"n_cases": 6, "mode": "A", "params": {"huge": True}}] + \
+               [{"n_cases": 3, "mode": "A", "params": {"xlarge": prof}, "hashseed": i % 2} for i, prof in enumerate(["heavy", "wide", "cells"])]
     return [{"n_cases": 2200, "mode": "A", "hashseed": i % 4} for i in range(14)] + \
            [{"n_cases": 1200, "mode": "B", "hashseed": i} for i in range(2)] + \
-           [{"n_cases": 3, "mode": "A", "params": {"huge": True}, "hashseed": i % 4} for i in range(10)]
+           [{"n_cases": 3, "mode": "A", "params": {"huge": True}, "hashseed": i % 4} for i in range(10)] + \
+           [{"n_cases": 8, "mode": "A", "params": {"xlarge": prof}, "hashseed": i} for i, prof in enumerate(["heavy", "wide", "cells", "tall"])]
 
 
 
@@ -57,6 +59,12 @@ def huge_case(rng):
 
 
 def gen_case(rng, ctx):
+    if ctx.params.get("xlarge"):
+        from vf.monitors import large
+        case = large.gen_large(rng, profiles=[ctx.params["xlarge"]], schemes="S1 S1 S2 S3", index=ctx.index)
+        cheap = case["profile"] in ("wide", "cells") and case["m"] <= 20
+        return {"ds": case["ds"], "scheme": case["scheme"], "dcls": "xlarge", "scls": case["scls"], "libseed": case["libseed"],
+                "starters": rng.choice([["BioCo!"], ["Borda"], ["Copeland"], ["Copeland", "Borda"]] + ([[]] if cheap else []))}
     if ctx.params.get("huge") and rng.random() < 0.67:
         # a local-search trap (gen.trap_dataset) inside a chain of more than 1000 elements: the majority ranking is the only
         # departure that reaches its own score, and it differs from the dissenting ranking in the middle of the chain only
@@ -99,7 +107,7 @@ def gen_case(rng, ctx):
         ds = libx.normalise_raw(ds)
         return {"ds": ds, "scheme": gen.scheme_cheap_ties(rng), "dcls": cls, "scls": "cheap-ties",
                 "libseed": rng.randrange(10 ** 6), "starters": rng.choice([[], [], [], ["BioCo!"], ["Borda"]])}
-    cls, ds = gen.dataset(rng, classes="D2 D3 D3 D4 D6 D7 D8 D9 D10 D11 D15 D15 D13 D16 D17", nmax=8, mmax=6)
+    cls, ds = gen.dataset(rng, classes="D2 D3 D3 D4 D6 D7 D8 D9 D10 D11 D15 D15 D13 D16 D17 D14", nmax=8, mmax=6)
     ds = libx.normalise_raw(ds)
     scls, sch = gen.scheme(rng, "S1 S1 S2 S3 S3 S6 S9 S10 S10 S11 S12")
     return {"ds": ds, "scheme": sch, "dcls": cls, "scls": scls, "libseed": rng.randrange(10 ** 6),
@@ -133,15 +141,47 @@ def first_appearance_differs(r, ids):
 
 
 def check_case(case, ctx):
-    ds, sch = case["ds"], case["scheme"]
+    judge(case, ctx, case["ds"], None)
+    # history: a Dataset object that BioConsert has just used is mutated in place (or a dataset derived from it is) and
+    # aggregated again: the starting points are those of the rankings it holds now
+    ds = case["ds"]
+    if case.get("dcls") not in ("huge", "xlarge") and len(ref.universe(ds)) >= 2 and case["libseed"] % 2 == 0:
+        import random
+        shared = libx.mk_dataset(ds)
+        call(lambda: ck.BioConsert().compute_consensus_rankings(shared, libx.mk_scheme(case["scheme"]), True))
+        r2 = random.Random(case["libseed"])
+        kind, ok = algos.mutate_in_place(shared, ds, r2)
+        st_now, now = call(libx.raw_dataset, shared)
+        if ok and st_now == "ok" and ref.universe(now):
+            ctx.count("runs_after_in_place_mutation")
+            ctx.count("history:" + kind)
+            judge({**case, "after": kind, "original_ds": ds}, ctx, now, shared)
+
+
+def judge(case, ctx, ds, dataset):
+    sch = case["scheme"]
     common.set_case(ctx, case)
-    dataset = libx.mk_dataset(ds)
+    if dataset is None:
+        dataset = libx.mk_dataset(ds)
     scheme = libx.mk_scheme(sch)
     elems = ref.universe(ds)
     complete = ref.is_complete(ds)
     ids = {e.value: i for e, i in dataset.mapping_elem_id.items()}
+    if len(elems) > 60 and gen.is_dyadic(sch):
+        # large datasets: the vectorised reference (exact on dyadic penalties, cross-checked against the Fraction model)
+        from vf import refnp
+        order = sorted(ids, key=lambda e: ids[e])
+        table_np = refnp.cost_table(ds, sch, order)
+
+        def score(r):
+            return refnp.score_from_table(refnp.candidate_positions(r, order), table_np)
+    else:
+        def score(r):
+            return ref.kemeny(r, ds, sch)
     starters = case["starters"]
     sub = {"ds": ds, "scheme": sch, "starters": starters, "libseed": case["libseed"]}
+    if case.get("after"):
+        sub["after"], sub["original_ds"] = case["after"], case["original_ds"]
     log = []
     libx.seed_library(case["libseed"])
     if starters == ["BioCo!"]:
@@ -159,6 +199,8 @@ def check_case(case, ctx):
     ctx.count("runs:" + label)
     if case.get("dcls") == "huge":
         ctx.count("runs_on_more_than_1000_elements")
+    if case.get("dcls") == "xlarge":
+        ctx.count("xlarge_runs")
     if st != "ok":
         if isinstance(cons, libx.DOCUMENTED_REFUSALS) and not complete:
             ctx.count("refused")
@@ -172,7 +214,7 @@ def check_case(case, ctx):
     if not rankings or not all(common.wellformed_raw(r, elems) for r in rankings):
         ctx.count("ill_formed_left_to_C03")
         return
-    scores = [ref.kemeny(r, ds, sch) for r in rankings]
+    scores = [score(r) for r in rankings]
     if len(set(scores)) > 1:
         ctx.violation("C09/returned-rankings-have-different-scores", f"{label}: returned rankings have true scores "
                       f"{[float(s) for s in scores]}", sub, observed=[float(s) for s in scores], expected="one score")
@@ -204,14 +246,14 @@ def check_case(case, ctx):
         if stp == "ok":
             starts.append(("PickAPerm", libx.raw_ranking(cp.consensus_rankings[0])))
     scrambled = False
-    if not starters and starts and min(ref.kemeny(s, ds, sch) for _n, s in starts) == ref.kemeny([list(elems)], ds, sch) \
-            and sum(1 for _n, s in starts if ref.kemeny(s, ds, sch) == ref.kemeny([list(elems)], ds, sch)) == 1:
+    if not starters and starts and len(elems) <= 60 and min(score(s) for _n, s in starts) == score([list(elems)]) \
+            and sum(1 for _n, s in starts if score(s) == score([list(elems)])) == 1:
         ctx.count("all_tied_is_the_strictly_best_start")
     for name, srank in starts:
         if not common.wellformed_raw(srank, elems):
             continue
         ctx.count("starts_compared")
-        s_score = ref.kemeny(srank, ds, sch)
+        s_score = score(srank)
         if first_appearance_differs(srank, ids):
             scrambled = True
         if result > s_score:
@@ -224,7 +266,7 @@ def check_case(case, ctx):
         ctx.count("scrambled_starts")
         ctx.nontrivial(sub)
         ctx.sample({**sub, "returned": rankings[:2], "result_score": float(result),
-                    "starts": [(n, float(ref.kemeny(r, ds, sch))) for n, r in starts[:4]]}, key=label)
+                    "starts": [(n, float(score(r))) for n, r in starts[:4]]}, key=label)
 
 
 def reach(counters, tier, info):
@@ -233,6 +275,9 @@ def reach(counters, tier, info):
     for name, key, need in [("runs whose starting ranking lists the elements in an order different from the id order",
                              "scrambled_starts", 500 * k), ("starting points compared", "starts_compared", 1500 * k),
                             ("runs on more than 1000 elements", "runs_on_more_than_1000_elements", 2),
+                            ("Dataset objects aggregated again after an in-place mutation", "runs_after_in_place_mutation", 400 * k),
+                            ("... where the step is remove_empty_rankings", "history:remove_empty", 15 * k),
+                            ("runs on 63-1025 elements / 40-257 rankings with starters", "xlarge_runs", 6 if tier == "quick" else 24),
                             ("no-starter runs where the all-tied ranking is the strictly best starting point",
                              "all_tied_is_the_strictly_best_start", 30 * k)]:
         v = counters.get(key, 0)
